@@ -219,6 +219,41 @@ HISTORY_R8 = {
     "C20-r8m1": "missed at first -> logs of 11, 12 and 26 objectives with the default columns",
 }
 
+HISTORY_R9 = {
+    "C01-r9m1": "missed at first -> ranking freshly created (never mapped) individuals through the public Individual.key_function",
+    "C01-r9m2": "missed at first -> variation of programs 700 levels deep, in a fresh interpreter that only imports the library",
+    "C02-r9m1": "missed at first -> FloatList written with int literals (as the shipped classification example does): validate accepts what generate returns",
+    "C02-r9m2": "missed at first -> derivations of thousands of decisions mapped from genomes of three to five genes",
+    "C03-r9m2": "first detected only as a broken correspondence (no failing input)",
+    "C04-r9m1": "missed at first -> grammars whose only shallow production can fail: whatever creation returns is inside the bounded language",
+    "C04-r9m2": "missed at first -> a production switched off by its weight in the language corpus (grow still reaches it)",
+    "C05-r9m1": "missed at first -> a symbol mentioned only by a Union with a base type in a production of minimum depth 1",
+    "C05-r9m2": "missed at first -> ONE list of classes handed to several extractions with different start symbols",
+    "C06-r9m1": "missed at first -> stack parents of different genome lengths (256 .. 700 genes)",
+    "C06-r9m2": "missed at first -> a GE genotype longer than the genome of the representation object that mutates it",
+    "C07-r9m1": "missed at first -> read-only calls between two mappings (repr of the grammar, str of every symbol, a structured-GE genotype created): evtgrammar.py, option lists not in ascending order, productions with docstrings",
+    "C07-r9m2": "missed at first -> grammar.get_grammar_properties_summary() between two mappings, an abstract class below an abstract class",
+    "C08-r9m1": "missed at first -> ONE multi-objective problem object declared with one bool, handed to every run of the worker",
+    "C08-r9m2": "missed at first -> the weighted-string grammar (a refinement object with a numpy matrix that lives as long as the process) in the worker",
+    "C09-r9m1": "missed at first -> parents stay unevaluated when their OFFSPRING are evaluated (fresh populations, a second problem)",
+    "C09-r9m2": "missed at first -> populations of hand-written programs under steps that evaluate and select",
+    "C10-r9m2": "missed at first -> a whole SimpleGP search on a weighted grammar whose start symbol has an unreachable sibling",
+    "C11-r9m1": "missed at first -> the type index of the root judged by object IDENTITY (strangers listed, own nodes missing)",
+    "C12-r9m1": "NOT detected: AdaptiveGeneticProgramming drops an evaluated tail when it shrinks the population (3 of ~160 seeded runs in the author's demo); `check_adaptive_gp` was added and passes on the unchanged tree, but does not provoke the event within the quick or thorough budget",
+    "C12-r9m2": "missed at first -> a user aggregate judged by the declaration (the first component), exactly 0 included",
+    "C13-r9m1": "missed at first -> the problems the SimpleGP wrapper builds for every form of `minimize`",
+    "C14-r9m1": "missed at first -> SimpleGP with a target that is never reached: the evaluation budget ends the search",
+    "C15-r9m1": "missed at first -> ONE step object standing at several places of a composition",
+    "C16-r9m1": "first detected only as a broken correspondence (no failing input): the elitism slot itself had disappeared from the ranges",
+    "C16-r9m2": "missed at first -> noisy fitness functions: an elite enters the next generation with the fitness it was selected on",
+    "C17-r9m1": "missed at first -> infinitely good values (+inf maximised, -inf minimised) under lexicase",
+    "C17-r9m2": "missed at first -> unevaluated pools of programs whose __str__ does not tell them apart",
+    "C18-r9m1": "first detected only as a broken correspondence -> the zero-weight fall-back is now also checked for same-seed determinism",
+    "C18-r9m2": "missed at first -> sources created without a seed argument",
+    "C19-r9m2": "missed at first -> two different abstract types with the SAME class name in one grammar",
+    "C20-r9m2": "missed at first -> an explicitly empty `fields` dictionary",
+}
+
 
 def main():
     old = (VERIF / "seeded/INDEX.md").read_text() if (VERIF / "seeded/INDEX.md").exists() else ""
@@ -234,6 +269,7 @@ def main():
     hist.update(HISTORY_R6)
     hist.update(HISTORY_R7)
     hist.update(HISTORY_R8)
+    hist.update(HISTORY_R9)
     rows, caught = [], 0
     dirs = sorted(p for p in (VERIF / "seeded").iterdir() if p.is_dir())
     for d in dirs:
@@ -258,8 +294,8 @@ against scratch copies (`VERIF_REPO`).  All {n} changes keep the repository's fa
 Round 1: {r1} changes (`Cxx-mK`); round 2: {rn(2)} changes (`Cxx-r2mK`), whose authors were asked to look beyond the obvious function;
 round 3: {rn(3)} changes (`Cxx-r3mK`), whose authors were told that a randomised differential test on small inputs exists and asked for
 rarely used library features, narrow triggers and state carried between calls; round 4: {rn(4)} changes (`Cxx-r4mK`), same brief plus the list of
-everything tried before for that property ("find something genuinely different"); rounds 5 to 8: {rn(5)}, {rn(6)}, {rn(7)} and {rn(8)} changes
-(`Cxx-r5mK` ... `Cxx-r8mK`), same brief, each with the ideas of all earlier rounds listed as already tried.
+everything tried before for that property ("find something genuinely different"); rounds 5 to 9: {rn(5)}, {rn(6)}, {rn(7)}, {rn(8)} and {rn(9)} changes
+(`Cxx-r5mK` ... `Cxx-r9mK`), same brief, each with the ideas of all earlier rounds listed as already tried.
 
 **{caught} of {n} are detected by the quick check of the property they break** (the `history` column says which were missed on their first evaluation and what was strengthened).
 
